@@ -119,3 +119,21 @@ def uintVectorRoot (H : Hash2) (e : Impl) (k length : Nat) : Val → Chunk
   | _ => zeroChunk
 
 end Zrnt.SSZ
+
+namespace Zrnt.SSZ
+
+/-- Model of `common.ReadBitList(dr, dst, bitLimit)` (zrnt; the repaired replacement of ztyp's
+`DecodingReader.BitList`) followed by `bitfields.BitlistCheck`: the whole scope `bs` is the raw bitlist; it is
+accepted iff it has at most `bitLimit/8 + 1` bytes, is not empty, its last byte is not zero, and the index of the
+delimiter bit in the last byte does not exceed `bitLimit - 8 * (len - 1)`. -/
+def goReadBitList (bitLimit : Nat) (bs : Bytes) : Bool :=
+  if bs.length > bitLimit / 8 + 1 then false
+  else
+    match bs.getLast? with
+    | none => false
+    | some last =>
+      if last = 0 then false
+      else if Nat.log2 last.toNat > bitLimit - (bs.length - 1) * 8 then false
+      else true
+
+end Zrnt.SSZ
